@@ -55,6 +55,7 @@ MIXED = {"payable": ADDR_KINDS, "private_key": ("wif",), "hierarchical_key": KT.
          "secret": ("wif",) + KT.BIP_KINDS, "public_key": (), "__call__": KT.ALL_KINDS,
          "secret_exponent": (), "public_pair": (), "sec": (), "bip32_seed": (), "hd_seed": (), "electrum_seed": (),
          "electrum_prv": (), "electrum_pub": (), "as_number": (), "script": ()}
+FREEFORM_EPS = frozenset(k for k, v in MIXED.items() if v == () )
 ELECTRUM_CHAIN = ("electrum_prv", "electrum_pub", "hierarchical_key", "secret", "__call__")
 
 
@@ -126,6 +127,7 @@ def make_ctx(sym, net):
     c.eps = entry_points(net.parse)
     c.fn = {ep: getattr(net.parse, ep) for ep in c.eps}
     c.deep_counter = 0
+    c.quick = False
     return c
 
 
@@ -454,11 +456,23 @@ def judge(ctx, ep, text, A, rec, must=None, expect=None, deep=False):
 
 def run_text(ctx, cls, text, rec, must_eps=None, must=None, expect=None):
     A = KT.analyse(ctx.params, text)
-    rec.case((ctx.sym, text), nontrivial=len(text) > 0, n=len(ctx.eps))
+    rec.case((ctx.sym, text), nontrivial=len(text) > 0, n=1)
     rec.ev("class." + cls)
     ctx.deep_counter += 1
     deep = ctx.deep_counter % 16 == 0
-    for ep in ctx.eps:
+    eps = ctx.eps
+    if ctx.quick and must_eps is None and cls.startswith(("misc.unicode", "misc.alphabet", "misc.blank")):
+        # quick tier: free-form garbage goes to a rotating third of the entry points (plus the catch-all); over a run
+        # every entry point still sees every garbage class
+        k = ctx.deep_counter % 3
+        eps = [e for j, e in enumerate(ctx.eps) if j % 3 == k or e == "__call__"]
+    elif ctx.quick and must_eps is None and cls.startswith(("b58.", "bech32.", "mutation.", "confusable.")):
+        # quick tier: checksummed-looking text always meets every checksummed-kind parser and every catch-all; the
+        # free-form parsers (numbers, scripts, pairs, seeds ...), for which it is just garbage, take turns
+        k = ctx.deep_counter % 3
+        eps = [e for j, e in enumerate(ctx.eps) if e not in FREEFORM_EPS or j % 3 == k]
+    rec.ev("entry_point_calls", len(eps))
+    for ep in eps:
         m = must if (must_eps and ep in must_eps) else None
         judge(ctx, ep, text, A, rec, must=m, expect=expect if m else None, deep=deep)
 
@@ -745,6 +759,20 @@ def valid_workload(ctx, rng, scale):
     return out
 
 
+def _confusables():
+    d = {"k": ["\u212a"], "K": ["\u212a"], "s": ["\u017f"], "S": ["\u017f"], "i": ["\u0130", "\u0131"], "I": ["\u0130", "\u0131"],
+         "a": ["\u00aa"], "o": ["\u00ba"], "A": ["\u00c5", "\u212b"], "1": ["\u00b9", "\u2460"], "2": ["\u00b2"], "3": ["\u00b3"]}
+    for j in range(10):
+        d.setdefault(str(j), []).extend([chr(0xff10 + j), chr(0x0660 + j)])
+    for j in range(26):
+        d.setdefault(chr(0x61 + j), []).append(chr(0xff41 + j))       # fullwidth small letters
+        d.setdefault(chr(0x41 + j), []).append(chr(0xff21 + j))
+    return d
+
+
+CONFUSABLE = _confusables()
+
+
 def mutate(text, rng, alphabet):
     L = len(text)
     mode = rng.randrange(4)
@@ -787,6 +815,18 @@ def run_network(ctx, spec, rec):
             alpha = RB.ALPHABET + "0OIl:"
         for _ in range(2 if scale == 1 else 12):
             texts.append(("mutation." + cls.split(".", 1)[1], mutate(text, rng, alpha)))
+    # Unicode look-alikes: characters that str.lower() / str.upper() / NFKC / int() / isdigit() map onto an ASCII character
+    # of a valid text. None of them belongs to any of the text formats: the result must never be the object of the valid text.
+    for cls, text, eps, label, expect in valid:
+        variants = [text]
+        if text.upper() != text and ctx.params.hrp and text.lower().startswith(ctx.params.hrp + "1"):
+            variants.append(text.upper())
+        for v in variants:
+            spots = [k for k, ch in enumerate(v) if ch in CONFUSABLE]
+            for k in (rng.sample(spots, min(len(spots), 2 if scale == 1 else 8)) if spots else []):
+                texts.append(("confusable." + cls.split(".", 1)[1], v[:k] + rng.choice(CONFUSABLE[v[k]]) + v[k + 1:]))
+    for t in ("\u00b2", "1\u00b2", "\u2460", "\u00b2/3", "5/\u00b3", "\u0661\u0662\u0663", "\uff11\uff12", "0x\uff11", "\u00b9\u00b2\u00b3,\u2074", "-\u00b2"):
+        texts.append(("confusable.number", t))
     seen = set()
     for cls, text in texts:
         if text in seen:
@@ -804,6 +844,7 @@ def run_shard(spec, rec):
     mine = good[spec["slice"]::spec["of"]]
     for sym, net in mine:
         ctx = make_ctx(sym, net)
+        ctx.quick = spec.get("tier") == "quick"
         for ep in ctx.eps:
             rec.require("parse." + ep)
         rec.require("net." + sym)
